@@ -3,3 +3,28 @@ NOTE_COMMON = "Trusted: the harness's own models/oracles, proptest, rustc; ChaCh
 add("C16", "exploration", "property-based testing (proptest round-trip + differential against a set model) and small-scope exhaustive enumeration",
     "Generated values of every packet kind of both layers and of connect tokens are round-tripped through the library's own encoders/decoders; mutated and raw byte strings are checked for decode/encode/decode stability; ack packets produced by a real endpoint are compared with a BTreeSet reference model, exhaustively for all subsets of 12-element universes in four arrival orders and by generation up to 300 sequences. Exploration is the right level: the domain is an input space with an exact executable oracle.",
     NOTE_COMMON, "DESIGN.md 4/C16")
+
+FE = "fault_enumeration"
+SIMNOTE = NOTE_COMMON + " The network is the harness: it owns every packet between get_packets_to_send and process_packet and every clock (update durations), so loss/duplication/delay/reordering and tick lengths are generated values."
+
+add("C01", FE, "stateful property-based testing (proptest over operation+fault sequences) against a prefix model, bounded-liveness check after a fault-free heal phase",
+    "Generated histories of send/receive/update/flush/deliver with a fault decision per packet in both directions are run against the real endpoints; after every receive the obtained sequence must be a byte-identical prefix of the submitted one, and after the network heals everything must arrive within a computed tick bound. Fault enumeration by generation: the quantifier is over fault sequences and schedules.",
+    SIMNOTE, "DESIGN.md 4/C01")
+add("C02", FE, "stateful property-based testing against a multiset model with a promptness (no head-of-line) invariant",
+    "As C01 on ReliableUnordered channels with generation biased to duplicates and to receives between single-packet arrivals; oracles: sub-multiset, at-most-once, obtained only after complete handover, available right after complete handover, bounded liveness.",
+    SIMNOTE, "DESIGN.md 4/C02")
+add("C03", FE, "stateful property-based testing with self-describing position-dependent message contents; per-packet delivery credits for unreliable channels",
+    "All channel kinds at once, boundary lengths, packing and interleaved slices, arbitrary arrival orders/losses/duplications; each obtained message must be byte-identical to one submitted on the same connection/direction/channel, unreliable messages at most as often as their least-delivered packet.",
+    SIMNOTE, "DESIGN.md 4/C03")
+add("C08", FE, "stateful property-based testing with a handover model (which packet was really given to the peer) + exhaustive enumeration of all arrival orders of all subsets of 6 packets",
+    "Ack-path faults are generated; after every step every message that left the sender's unacknowledged set (hook, cross-checked through channel_available_memory) must have had every packet carrying it handed to the peer, and every sequence in an emitted ack packet must have been received.",
+    SIMNOTE, "DESIGN.md 4/C08")
+add("C09", FE, "stateful property-based testing with accounting invariants after every call, quiescence check after heal, known-finding signatures excluded by construction",
+    "Small budgets, long histories, duplicate-heavy faults; invariants 0<=used<=max, exact send accounting, leak bound on receive accounting, 3 s fragment rule, full return at quiescence, no memory disconnect for a polite prompt application except the two recorded design-level findings (printed as KNOWN-FINDING while their witnesses reproduce).",
+    SIMNOTE, "DESIGN.md 4/C09")
+add("C14", "exploration", "property-based testing over configurations and queue contents; every flush decoded with the crate's own decoder and compared with a declarative budget/priority rule",
+    "Budgets from 0 to 60000 bytes, any channel order/kinds, backlogs from faults; per flush: payload bytes <= budget, nothing eligible left unsent that would have fitted in what was left after its channel, unreliable leftovers dropped for good, reliable leftovers arrive later.",
+    SIMNOTE, "DESIGN.md 4/C14")
+add("C15", FE, "stateful property-based testing over tick schedules and ack faults with a transmission-log oracle",
+    "Tick lengths around resend_time and the 3 s horizon, acks lost/duplicated/delayed; from the decoded packets of every flush: no unit twice within resend_time, every due unacknowledged unit present (unbounded budget), no unit after its acknowledgement was processed.",
+    SIMNOTE, "DESIGN.md 4/C15")
